@@ -34,6 +34,20 @@ Section C20.
   Theorem C20_roundtrip : forall ord m s, read (write ord m s) true = Ok (m, s).
   Proof. exact (roundtrip deqb H meta0 enc_meta dec_meta print_sums parse_sums scan_err deqb_spec dec_enc parse_print scan_print). Qed.
 
+  (* the same per metadata value, without assuming the JSON round trip of every value: what is read
+     back is the state bytes and whatever encoding/json decodes from its own encoding of m *)
+  Theorem C20_roundtrip_partial : forall ord m s m',
+    dec_meta meta0 (enc_meta m) = Some m' -> read (write ord m s) true = Ok (m', s).
+  Proof. exact (roundtrip_codec deqb H meta0 enc_meta dec_meta print_sums parse_sums scan_err deqb_spec parse_print scan_print). Qed.
+
+  (* OPEN FINDING (known_findings.json): for a metadata value that encoding/json does not give back
+     (a string that is not valid UTF-8 is stored with U+FFFD) the written archive verifies and reads
+     back as something else: [dec_enc] is false of the real codec for exactly these values *)
+  Theorem C20_roundtrip_refuted : forall ord m s m',
+    dec_meta meta0 (enc_meta m) = Some m' -> m' <> m ->
+    exists r, read (write ord m s) true = Ok r /\ r <> (m, s).
+  Proof. exact (roundtrip_lossy deqb H meta0 enc_meta dec_meta print_sums parse_sums scan_err deqb_spec parse_print scan_print). Qed.
+
   (* ---- any single corruption of a written archive is rejected, or extracts exactly the original ---- *)
   Theorem C20_tamper : forall ord m s L' t' r,
     corrupt (write ord m s) L' t' -> read L' t' = Ok r -> r = (m, s).
@@ -168,7 +182,15 @@ Theorem C20_corrupt_accepted_example :
   iread ex_inj_state true = Ok (ex_m, ex_s).
 Proof. exact ex_corrupt_accepted_inject_state. Qed.
 
+(* the premises of C20_roundtrip_refuted are met by a concrete lossy codec *)
+Theorem C20_roundtrip_refuted_witness :
+  read bytes_eqb iH imeta0 idec iparse iscan (write iH lenc iprint true [255]%N [7]%N) true = Ok ([253]%N, [7]%N).
+Proof. exact ex_lossy_roundtrip. Qed.
+
 Print Assumptions C20_roundtrip.
+Print Assumptions C20_roundtrip_refuted_witness.
+Print Assumptions C20_roundtrip_partial.
+Print Assumptions C20_roundtrip_refuted.
 Print Assumptions C20_tamper.
 Print Assumptions C20_payload_change_rejected.
 Print Assumptions C20_accept_sound.
